@@ -64,14 +64,15 @@ mod verif_cmap_writer {
     #[kani::proof]
     #[kani::unwind(5)]
     fn format4_single_mapping_fffe() { single(0xFFFE) }
-    //@harness fns=CmapSubtable::create_format_4,Format4SegmentComputer::compute,Format4Segment::should_combine tier=thorough timeout=1800 note="two adjacent pairs U+0041,42 and U+0051,52: depending on the glyph ids this yields delta segments, one glyph-array segment, or two glyph-array segments (the second idRangeOffset must skip the first one's ids)"
+    //@harness fns=CmapSubtable::create_format_4,Format4SegmentComputer::compute,Format4Segment::should_combine tier=thorough timeout=1800 note="two adjacent pairs U+0041,42 -> 10,20 and U+0051,52 -> 30,g (g symbolic): one or two glyph-array segments (the second idRangeOffset must skip the first one's ids)" bound="one enumerated code-point shape, last glyph id symbolic"
     #[kani::proof]
-    #[kani::unwind(12)]
+    #[kani::unwind(24)]
     fn format4_two_pairs() {
-        let g: [u16; 4] = kani::any();
-        kani::assume(g[0] != 0 && g[1] != 0 && g[2] != 0 && g[3] != 0);
-        // keep idDelta inside i16 here; the modulo case is covered by the single-mapping harnesses
-        kani::assume(g[0] < 0x4000 && g[1] < 0x4000 && g[2] < 0x4000 && g[3] < 0x4000);
+        // three glyph ids fixed so that the first pair needs the glyph id array; the last one symbolic: the second pair is
+        // then either a second glyph-array segment (its idRangeOffset must skip the first pair's ids) or a delta segment
+        let g3: u16 = kani::any();
+        kani::assume(g3 != 0 && g3 < 0x4000);
+        let g: [u16; 4] = [10, 20, 30, g3];
         let cps: [u16; 4] = [0x41, 0x42, 0x51, 0x52];
         let m = [(ch(cps[0]), GlyphId::new(g[0] as u32)), (ch(cps[1]), GlyphId::new(g[1] as u32)),
                  (ch(cps[2]), GlyphId::new(g[2] as u32)), (ch(cps[3]), GlyphId::new(g[3] as u32))];
@@ -85,7 +86,6 @@ mod verif_cmap_writer {
         kani::assume(other != 0x41 && other != 0x42 && other != 0x51 && other != 0x52 && other != 0xFFFF);
         assert!(fmt4_lookup(&t, other) == 0);
         kani::cover!(t.glyph_id_array.len() == 4);
-        kani::cover!(t.glyph_id_array.len() == 0);
         kani::cover!(t.glyph_id_array.len() == 2);
     }
 }
